@@ -361,9 +361,22 @@ fn describe(st: &St) -> String {
         // the info-level parent: the handle that lists this node
         let ents = match n {
             XmlNode::DocumentType(t) => {
+                // a declared entity that is refused in attribute values is listed as "\0name"
+                let scratch = st.docs[*d].dom.as_ref().unwrap().create_attribute("zz").ok();
                 let l: Vec<String> = dom::DocumentType::entities(t)
                     .iter()
-                    .map(|e| enc(&e.node_name()))
+                    .map(|e| {
+                        let name = e.node_name();
+                        let usable = scratch
+                            .as_ref()
+                            .map(|a| dom::AttrMut::set_value(a, &format!("&{};", name)).is_ok())
+                            .unwrap_or(true);
+                        if usable {
+                            enc(&name)
+                        } else {
+                            enc(&format!("\0{}", name))
+                        }
+                    })
                     .collect();
                 if l.is_empty() {
                     "~".to_string()
@@ -440,7 +453,10 @@ fn digest(s: &str) -> String {
                     xml_parser::model::AttributeValue::Reference(
                         xml_parser::model::Reference::Character(n, radix),
                     ) => {
-                        let ch = u32::from_str_radix(n, *radix).ok().and_then(char::from_u32);
+                        let ch = u32::from_str_radix(n, *radix)
+                            .ok()
+                            .and_then(char::from_u32)
+                            .filter(|c| xml_nom::xmlchar::is_char(*c));
                         format!(
                             "c{}_{}",
                             enc(&format!("#{}{}", if *radix == 16 { "x" } else { "" }, n)),
